@@ -267,6 +267,9 @@ impl fmt::Debug for ProguardRecordIter<'_> {
 impl<'s> Iterator for ProguardRecordIter<'s> {
     type Item = Result<ProguardRecord<'s>, ParseError<'s>>;
     fn next(&mut self) -> Option<Self::Item> {
+        // blank lines are not records: skipping them here keeps trailing ones
+        // (at the end of the file, or after a malformed line) from being reported as an error
+        self.slice = consume_leading_newlines(self.slice);
         if self.slice.is_empty() {
             return None;
         }
